@@ -327,7 +327,7 @@ def rule_instances(C, terms, lhs, rhs):
     return out
 
 # ------------------------------------------------------------------ cheapest represented term of a class
-WEIGHTS = {'AstSize': None, 'Weighted': {'var': 1, 'app': 3, 'lam': 2, 'k': 5, 'u': 1, 'j': 4, 't3': 6, 's3': 7, 'm3': 9}, 'WeightedF': {'f': 3, 'g': 2, 'h': 5, 'w': 7}}
+WEIGHTS = {'AstSize': None, 'Depth': 'depth', 'Weighted': {'var': 1, 'app': 3, 'lam': 2, 'k': 5, 'u': 1, 'j': 4, 't3': 6, 's3': 7, 'm3': 9}, 'WeightedF': {'f': 3, 'g': 2, 'h': 5, 'w': 7}}
 def term_cost(t, cf):
     w = 1 if WEIGHTS[cf] is None else WEIGHTS[cf][t[0]]
     return w + sum(term_cost(a, cf) for kind, a in zip(SIG[t[0]], t[1:]) if kind == 'c')
@@ -339,10 +339,13 @@ def min_costs(C, cf):
     while changed:
         changed = False
         for u, g in C.U.items():
-            w = 1 if WEIGHTS[cf] is None else WEIGHTS[cf][g[0]]
-            tot = w
-            for kind, a in zip(SIG[g[0]], g[1:]):
-                if kind == 'c': tot += cost.get(C.cls(a), INF)
+            if WEIGHTS[cf] == 'depth':
+                tot = 1 + max([cost.get(C.cls(a), INF) for kind, a in zip(SIG[g[0]], g[1:]) if kind == 'c'] + [0])
+            else:
+                w = 1 if WEIGHTS[cf] is None else WEIGHTS[cf][g[0]]
+                tot = w
+                for kind, a in zip(SIG[g[0]], g[1:]):
+                    if kind == 'c': tot += cost.get(C.cls(a), INF)
             c = C.find(u)
             if tot < cost.get(c, INF): cost[c] = tot; changed = True
     return cost
